@@ -31,6 +31,8 @@ func isSinkName(n string) bool {
 func registerGhosts(v *Verifier) {
 	v.ghostFuns["coinsLen"] = ghostSig{[]string{"Slice_sdk_Coin"}, "Int"}
 	v.ghostFuns["decquo"] = ghostSig{[]string{"Int", "Int"}, "Int"}
+	v.ghostFuns["decmul"] = ghostSig{[]string{"Int", "Int"}, "Int"}
+	v.ghostFuns["pow2"] = ghostSig{[]string{"Int"}, "Int"}
 	v.ghostFuns["hasDelegation"] = ghostSig{[]string{sortAddr, sortAddr}, "Bool"}
 	v.ghostFuns["delegationShares"] = ghostSig{[]string{sortAddr, sortAddr}, "Int"}
 	v.ghostFuns["hasValidator"] = ghostSig{[]string{sortAddr}, "Bool"}
@@ -198,7 +200,7 @@ func init() {
 	extRules[I+"MulRaw"] = mulR
 	quoI := func(cc *callCtx) ([]string, bool) {
 		cc.e.panicIf(fmt.Sprintf("(= %s 0)", cc.arg(1)), "Int.Quo: division by zero", cc.ins)
-		return []string{cc.def("q", "Int", fmt.Sprintf("(tdiv %s %s)", cc.arg(0), cc.arg(1)))}, true
+		return []string{cc.def("q", "Int", divTerm("tdiv", cc.arg(0), cc.arg(1)))}, true
 	}
 	extRules[I+"Quo"] = quoI
 	extRules[I+"QuoRaw"] = quoI
@@ -244,7 +246,7 @@ func init() {
 	extRules[D+"MulInt"] = mulR
 	quoD := func(cc *callCtx) ([]string, bool) {
 		cc.e.panicIf(fmt.Sprintf("(= %s 0)", cc.arg(1)), "Dec.QuoInt64: division by zero", cc.ins)
-		return []string{cc.def("dq", "Int", fmt.Sprintf("(tdiv %s %s)", cc.arg(0), cc.arg(1)))}, true
+		return []string{cc.def("dq", "Int", divTerm("tdiv", cc.arg(0), cc.arg(1)))}, true
 	}
 	extRules[D+"QuoInt64"] = quoD
 	extRules[D+"QuoInt"] = quoD
@@ -264,7 +266,8 @@ func init() {
 	// Mul / Quo: exact real result rounded half-even to 18 decimals: |r*1e18 - a*b| <= 1e18/2
 	extRules[D+"Mul"] = func(cc *callCtx) ([]string, bool) {
 		a, b := cc.arg(0), cc.arg(1)
-		r := cc.e.havocSort("Int", "dmul")
+		cc.e.g().DeclFun("decmul", []string{"Int", "Int"}, "Int")
+		r := cc.def("dmul", "Int", fmt.Sprintf("(decmul %s %s)", a, b))
 		cc.e.r.assume(fmt.Sprintf("(and (<= (- (* 2 (* %s %s)) %s) (* 2 (* %s %s))) (<= (* 2 (* %s %s)) (+ (* 2 (* %s %s)) %s)))", a, b, decOne, r, decOne, r, decOne, a, b, decOne))
 		return []string{r}, true
 	}
@@ -275,6 +278,14 @@ func init() {
 		// |r*b - a*1e18| <= |b|/2  (+1 for the double rounding of the SDK's chopPrecisionAndRound on an already rounded quotient)
 		cc.e.r.assume(fmt.Sprintf("(let ((d (- (* 2 (* %s %s)) (* 2 (* %s %s)))) (ab (ite (>= %s 0) %s (- %s)))) (and (<= (- (+ ab 2)) d) (<= d (+ ab 2))))", r, b, a, decOne, b, b, b))
 		return []string{r}, true
+	}
+	extRules[D+"String"] = func(cc *callCtx) ([]string, bool) {
+		g := cc.e.g()
+		g.DeclFun("decString", []string{"Int"}, sortStr)
+		g.DeclFun("decFromStr", []string{sortStr}, "Int")
+		g.DeclFun("decFromStrOk", []string{sortStr}, "Bool")
+		g.Axiom("dec.string.roundtrip", "(forall ((d Int)) (! (and (decFromStrOk (decString d)) (= (decFromStr (decString d)) d)) :pattern ((decString d))))")
+		return []string{cc.def("dstr", sortStr, fmt.Sprintf("(decString %s)", cc.arg(0)))}, true
 	}
 	extRules[D+"MustFloat64"] = func(cc *callCtx) ([]string, bool) {
 		cc.e.g().DeclFun("dec2f64", []string{"Int"}, sortF64)
@@ -787,7 +798,7 @@ func miscRules() {
 			return []string{cc.arg(0)}, true
 		}
 	}
-	B := "(*math/big.Int)."
+	B := "(math/big.Int)."
 	extRules[B+"Add"] = bigBin("+", false)
 	extRules[B+"Sub"] = bigBin("-", false)
 	extRules[B+"Mul"] = bigBin("*", false)
@@ -822,8 +833,29 @@ func miscRules() {
 		e.g().DeclFun("pow2", []string{"Int"}, "Int")
 		e.g().Axiom("pow2.pos", "(forall ((n Int)) (! (>= (pow2 n) 1) :pattern ((pow2 n))))")
 		// arithmetic shift = floor division by 2^n
-		e.store(cc.loc(0), cc.def("rsh", "Int", fmt.Sprintf("(div %s (pow2 %s))", xv, cc.arg(2))))
+		e.store(cc.loc(0), cc.def("rsh", "Int", divTerm("div", xv, fmt.Sprintf("(pow2 %s)", cc.arg(2)))))
 		return []string{cc.arg(0)}, true
+	}
+	extRules["(math/big.Float).SetInt"] = func(cc *callCtx) ([]string, bool) {
+		v, _ := cc.e.load(cc.loc(1))
+		cc.e.store(cc.loc(0), v)
+		return []string{cc.arg(0)}, true
+	}
+	extRules["(math/big.Float).Float64"] = func(cc *callCtx) ([]string, bool) {
+		v, _ := cc.e.load(cc.loc(0))
+		acc := cc.e.havoc(cc.resType(1), "acc")
+		return []string{cc.def("bf64", sortF64, fmt.Sprintf("((_ to_fp 11 53) RNE (to_real %s))", v)), acc}, true
+	}
+	for _, fn := range []string{"Log2", "Log10", "Ceil", "Floor", "Sqrt"} {
+		fn := fn
+		extRules["math."+fn] = func(cc *callCtx) ([]string, bool) {
+			cc.e.g().DeclFun("f64_"+fn, []string{sortF64}, sortF64)
+			return []string{cc.def("m"+fn, sortF64, fmt.Sprintf("(f64_%s %s)", fn, cc.arg(0)))}, true
+		}
+	}
+	extRules["math.Pow10"] = func(cc *callCtx) ([]string, bool) {
+		cc.e.g().DeclFun("f64_Pow10", []string{"Int"}, sortF64)
+		return []string{cc.def("mPow10", sortF64, fmt.Sprintf("(f64_Pow10 %s)", cc.arg(0)))}, true
 	}
 	extRules["math/big.NewInt"] = func(cc *callCtx) ([]string, bool) {
 		e := cc.e
